@@ -735,8 +735,9 @@ impl Prop for ReaderProp {
                     // update model + check return values
                     let window_now = if m.strict { d_rel - m.c } else { r.buf_len() };
                     let window = |from: usize, n: usize| -> &[u8] {
-                        let lo = m.base + from;
-                        &data[lo..(lo + n).min(data.len())]
+                        // (clamped: code under test that is broken may claim more than exists)
+                        let lo = (m.base + from).min(data.len());
+                        &data[lo..lo.saturating_add(n).min(data.len())]
                     };
                     match op {
                         ROp::Request(n) => {
@@ -772,7 +773,7 @@ impl Prop for ReaderProp {
                             need = Some(k.saturating_add(1));
                             let (_, l, _) = ret.unwrap();
                             let expect = if k < window_now {
-                                Some(data[m.base + m.c + k])
+                                data.get(m.base + m.c + k).copied()
                             } else {
                                 None
                             };
@@ -1006,9 +1007,9 @@ impl Prop for ReaderProp {
             out.push(c);
         }
         // drop Interrupted / hostile steps
-        if case.src.steps.iter().any(|s| matches!(s, Step::Interrupted)) {
+        if case.src.steps.iter().any(|s| matches!(s, Step::Interrupted | Step::Storm(_))) {
             let mut c = case.clone();
-            c.src.steps.retain(|s| !matches!(s, Step::Interrupted));
+            c.src.steps.retain(|s| !matches!(s, Step::Interrupted | Step::Storm(_)));
             out.push(c);
         }
         for i in 0..case.src.steps.len().min(64) {
